@@ -17,13 +17,16 @@ type memEntry struct {
 	data []byte
 	// openErr makes Open fail for this entry
 	openErr bool
+	// readErrAfter > 0: reads fail once readErrAfter-1 bytes were handed out
+	readErrAfter int
 }
 
 // memFS is a synthetic FS view: entries listed in protocol order, contents in memory; Open hands
 // the bytes out in solver-chosen fragments.
 type memFS struct {
-	entries   []*memEntry
-	walkErrAt int // index at which Walk reports an error (-1: never)
+	entries    []*memEntry
+	walkErrAt  int // index at which Walk reports an error (-1: never)
+	wholeReads bool
 }
 
 func (f *memFS) Walk(ctx context.Context, target string, fn gofs.WalkDirFunc) error {
@@ -50,7 +53,7 @@ func (f *memFS) Open(p string) (io.ReadCloser, error) {
 			if e.openErr {
 				return nil, errInjected
 			}
-			return &fragFile{data: e.data}, nil
+			return &fragFile{data: e.data, failAfter: e.readErrAfter, whole: f.wholeReads}, nil
 		}
 	}
 	return nil, os.ErrNotExist
@@ -59,13 +62,25 @@ func (f *memFS) Open(p string) (io.ReadCloser, error) {
 type fragFile struct {
 	data      []byte
 	pos       int
-	failAfter int // >0: return an error once this many bytes were handed out
+	failAfter int  // >0: return an error once failAfter-1 bytes were handed out
+	whole     bool // hand out everything in one read
 }
 
 func (r *fragFile) Read(p []byte) (int, error) {
+	if r.failAfter > 0 && r.pos >= r.failAfter-1 {
+		return 0, errInjected
+	}
 	rem := len(r.data) - r.pos
 	if rem == 0 {
 		return 0, io.EOF
+	}
+	if r.whole || r.failAfter > 0 {
+		n := copy(p, r.data[r.pos:])
+		if r.failAfter > 0 && r.pos+n > r.failAfter-1 {
+			n = r.failAfter - 1 - r.pos
+		}
+		r.pos += n
+		return n, nil
 	}
 	max := len(p)
 	if rem < max {
@@ -115,11 +130,15 @@ type memStream struct {
 	sendErrAt    int // SendMsg number (1-based) that fails; 0: never
 	recvErrAt    int
 	sends, recvs int
+	brk          chan struct{} // closed when the transport is torn down (shared by both ends)
+	gotFIN       bool          // a FIN packet was delivered to this end
+	onSend       func(n int)   // hook called before the n-th SendMsg
 }
 
 func newStreamPair(ctx context.Context, capacity int) (*memStream, *memStream) {
 	a2b, b2a := make(chan *types.Packet, capacity), make(chan *types.Packet, capacity)
-	return &memStream{ctx: ctx, in: b2a, out: a2b}, &memStream{ctx: ctx, in: a2b, out: b2a}
+	brk := make(chan struct{})
+	return &memStream{ctx: ctx, in: b2a, out: a2b, brk: brk}, &memStream{ctx: ctx, in: a2b, out: b2a, brk: brk}
 }
 
 func copyPacket(p *types.Packet) *types.Packet {
@@ -135,11 +154,34 @@ func copyPacket(p *types.Packet) *types.Packet {
 
 func (s *memStream) SendMsg(m interface{}) error {
 	s.sends++
+	if s.onSend != nil {
+		s.onSend(s.sends)
+	}
 	if s.sends == s.sendErrAt {
 		return errInjected
 	}
-	s.out <- copyPacket(m.(*types.Packet))
-	return nil
+	select {
+	case <-s.brk:
+		return errBroken
+	default:
+	}
+	select {
+	case s.out <- copyPacket(m.(*types.Packet)):
+		return nil
+	case <-s.brk:
+		return errBroken
+	}
+}
+
+var errBroken = &os.PathError{Op: "stream", Path: "torn down", Err: os.ErrClosed}
+
+// Break tears the transport down: every pending and future stream call on either end fails.
+func (s *memStream) Break() {
+	select {
+	case <-s.brk:
+	default:
+		close(s.brk)
+	}
 }
 
 func (s *memStream) RecvMsg(m interface{}) error {
@@ -147,9 +189,18 @@ func (s *memStream) RecvMsg(m interface{}) error {
 	if s.recvs == s.recvErrAt {
 		return errInjected
 	}
-	p, ok := <-s.in
+	var p *types.Packet
+	var ok bool
+	select {
+	case p, ok = <-s.in:
+	case <-s.brk:
+		return errBroken
+	}
 	if !ok {
 		return io.EOF
+	}
+	if p.Type == types.PACKET_FIN {
+		s.gotFIN = true
 	}
 	dst := m.(*types.Packet)
 	dst.Type, dst.ID, dst.Stat = p.Type, p.ID, p.Stat
